@@ -22,7 +22,9 @@ FAMILIES = ["gauss", "offset", "mixed_scales", "integer", "const_col", "dup_rows
 WKINDS = ["none", "none", "uniform", "random", "zeros", "integer", "scaled", "near_equal"]
 # common factors for the "scaled" weight kind: powers of two (the normalised weights are then bit-identical to
 # those of the unscaled vector) and powers of ten, 1e-12 ... 1e12
-WFACTORS = [2.0 ** -40, 2.0 ** -27, 2.0 ** -10, 2.0 ** 20, 2.0 ** 40, 1e-12, 1e-9, 1e-6, 1e-3, 1e6, 1e12]
+WFACTORS = [2.0 ** -40, 2.0 ** -27, 2.0 ** -10, 2.0 ** 20, 2.0 ** 40, 1e-12, 1e-9, 1e-6, 1e-3, 1e6, 1e12,
+            # the extremes of the binary64 range: raw products x*w over/underflow, the code must normalise first
+            2.0 ** -1000, 2.0 ** -960, 2.0 ** -900, 2.0 ** 900, 2.0 ** 960, 2.0 ** 990, 1e-290, 1e290]
 
 
 # ------------------------------------------------------------------------------ generation
@@ -104,6 +106,13 @@ def gen_w_scaled(rng, n):
     return [f * x for x in base], base, f, bkind
 
 
+def nondegenerate(c):
+    """every weighted column variance is well above the rounding noise of its column (std > 1e-8 of the magnitude)"""
+    m, v = stats_ref(c)
+    cm = np.max(np.abs(np.array(c["X"], dtype=float)), axis=0)
+    return bool(np.all(cm > 0) and np.all(np.asarray(v, dtype=float) > 1e-16 * cm ** 2))
+
+
 def gen_case(rng, quick):
     nmax, dmax, kmax = (10, 4, 5) if quick else (24, 6, 8)
     r = rng.random()
@@ -129,10 +138,33 @@ def gen_case(rng, quick):
         Y = [[rng.gauss(0, 10) for _ in range(d)] for _ in range(k)]
     rtol = rng.choice([0, 0, 0, 1e-6, 1e-3, 0.25])
     atol = rng.choice([1e-12, 1e-12, 1e-12, 1e-8, 1e-3, 2.0])
-    return dict(X=X, w=w, Y=Y, wkind=wkind, family=fam, exact=False,
-                with_mean=rng.random() < 0.6, with_std=rng.random() < 0.75,
-                column_wise=rng.random() < 0.5, rtol=rtol, atol=atol,
-                copy=rng.random() < 0.3, as_int=(fam == "integer" and rng.random() < 0.5), **extra)
+    c = dict(X=X, w=w, Y=Y, wkind=wkind, family=fam, exact=False,
+             with_mean=rng.random() < 0.6, with_std=rng.random() < 0.75,
+             column_wise=rng.random() < 0.5, rtol=rtol, atol=atol,
+             copy=rng.random() < 0.3, as_int=(fam == "integer" and rng.random() < 0.5), **extra)
+    r2, r3 = rng.random(), rng.random()
+    kk = [rng.randint(50, 120) for _ in range(d)]
+    if wkind == "scaled" and not 1e-200 < extra["w_factor"] < 1e200:
+        # extreme weight magnitudes together with large / small data: x*w formed with the raw weights would
+        # overflow / become subnormal; with the normalised weights everything is in range
+        if r2 < 0.7:
+            g = 2.0 ** 30 if extra["w_factor"] > 1 else 2.0 ** -30
+            c["X"] = [[x * g for x in row] for row in X]
+            c["Y"] = [[y * g for y in row] for row in Y]
+            c["data_factor"] = g
+            if g < 1 and n >= 2 and nondegenerate(c):     # tolerances off only where no variance is rounding noise
+                c["atol"], c["rtol"] = 0.0, 0
+    elif n >= 2 and r2 < 0.12 and fam in ("gauss", "offset", "mixed_scales", "integer", "dup_rows"):
+        # tiny-scale columns (SI units next to ordinary ones / a uniformly down-scaled input) with the
+        # tolerances switched off: every column (column-wise) or the whole matrix is multiplied by 2^-k,
+        # k in 50..120.  Only if no weighted column variance vanishes (atol = 0 would divide by zero).
+        if nondegenerate(c):
+            if not (c["column_wise"] and r3 < 0.7):
+                kk = [kk[0]] * d                       # one global factor (always in whole-matrix mode)
+            c["X"] = [[x * 2.0 ** -kk[j] for j, x in enumerate(row)] for row in X]
+            c["Y"] = [[y * 2.0 ** -kk[j] for j, y in enumerate(row)] for row in Y]
+            c.update(tiny_k=kk, with_std=True, atol=0.0, rtol=0)
+    return c
 
 
 def gen_exact_case(rng):
@@ -304,18 +336,37 @@ def oracle(case, rec):
     return relational(case, rec)
 
 
-REL = dict(zero_weight_rows=0, weight_scale=0, idempotent=0, shift=0, rescale=0, scaled_vs_base=0, unit_weights=0)
+REL = dict(zero_weight_rows=0, weight_scale=0, idempotent=0, shift=0, rescale=0, scaled_vs_base=0, unit_weights=0, tiny_columns=0)
 
 
 def relational(case, rec):
     """parts of the property that relate two fits (implementation side, always run)"""
     if rec["raised"]:
         return None
+    if guard_margin(case)[1]:
+        return None          # accepted only by rounding noise (e.g. constant data of large magnitude): scale_ is noise
     X = np.array(case["X"], dtype=float)
     n, d = X.shape
     colmax = np.max(np.abs(X), axis=0)
     s = np.array(rec["scale"])
     # integer weights == repeated rows
+    if case.get("tiny_k"):
+        # C11_rescale_sign / C11_rescale_accepted with a = 2^-k (atol = rtol = 0: nothing is rejected): every step of
+        # fit and transform commutes exactly with a power-of-two factor per column, so against the fit on the
+        # data before down-scaling mean_ and scale_ are EXACTLY 2^-k times, transform is bit-identical
+        REL["tiny_columns"] = REL.get("tiny_columns", 0) + 1
+        g = np.array([2.0 ** -k for k in case["tiny_k"]])
+        c2 = dict(case, X=(X / g).tolist(), Y=(np.array(case["Y"], dtype=float) / g).tolist(), tiny_k=None)
+        r2 = run_impl(c2)
+        if r2["raised"]:
+            return "fit (atol = rtol = 0) rejects the data before it was down-scaled by powers of two"
+        if np.any(np.array(r2["mean"]) * g != np.array(rec["mean"])):
+            return "mean_ of data down-scaled per column by 2^-k (k = %r) is not 2^-k times the original mean_" % (case["tiny_k"],)
+        if np.any(np.array(r2["scale"]) * g != s):
+            return ("scale_ of data down-scaled per column by 2^-k (k = %r) is %r, not 2^-k times the original scale_ %r"
+                    % (case["tiny_k"], rec["scale"], r2["scale"]))
+        if not np.array_equal(np.array(r2["TY"]), np.array(rec["TY"])):
+            return "transform changes when data and input are down-scaled per column by 2^-k (k = %r)" % (case["tiny_k"],)
     if case["wkind"] == "scaled" and "w_factor" in case:
         # the same distribution at another overall magnitude (C11_weight_scale_invariant): compare with the
         # fit on the base vector.  A power-of-two factor scales every weight and their sum exactly, so the
@@ -893,6 +944,9 @@ def run(ctx):
         stats["n_lt_2"] += len(c["X"]) < 2
         stats["nonzero_rtol"] += c["rtol"] != 0
         stats["exact_family"] += c["exact"]
+        stats["tiny_scale_cases"] = stats.get("tiny_scale_cases", 0) + bool(c.get("tiny_k"))
+        stats["extreme_weight_factor"] = stats.get("extreme_weight_factor", 0) + (c["wkind"] == "scaled" and not 1e-200 < c.get("w_factor", 1) < 1e200)
+        stats["extreme_weight_with_data_factor"] = stats.get("extreme_weight_with_data_factor", 0) + bool(c.get("data_factor"))
     # gate cases whose guard decision is within rounding noise of the threshold
     gated = [guard_margin(c)[1] for c in cases]
     stats["guard_gated"] = sum(gated)
